@@ -89,6 +89,18 @@ def rule_file_naming(ctx):
             return I.call(I.getattr(cur, "_transform"), [descriptors()[kind]], {}, None)
         for p in explore(prog, lambda: ExecHooks(None), run, max_paths=16):
             v = p.value
+            if p.outcome == "return" and not (isinstance(v, NodeV) and v.cls == "Command"):
+                # whatever is on disk, this instance has not necessarily attached it: every CREATE DATABASE reaches the engine as an ATTACH
+                # (IF NOT EXISTS is the engine's to decide — it knows what is attached; a file that merely exists was written by an earlier run)
+                probed = [tagof(e[1]) for e in p.effects if e[0] == "call" and isinstance(e[1], str) and e[1].rsplit(".", 1)[-1] in ("exists", "is_file", "isfile", "stat")]
+                ctx.ob("C18.a", f"{site_name} with{'' if with_path else 'out'} db_path: every path attaches the database", False, "fakesnow/transforms.py",
+                       f"returns {tagof(v)[:60]}")
+                ctx.violation("C18.a", "transforms", "create_database", f"{site_name}: a path generates no ATTACH", "fakesnow/transforms.py",
+                              f"{site_name} with{'' if with_path else 'out'} a db_path has a path on which no ATTACH is generated"
+                              + (f" (decided by {probed[0]}() on the database file)" if probed else "")
+                              + ": a database file left by an earlier run is reported as created / existing but is never opened in this instance, "
+                                "so the committed state it holds is not observable")
+                continue
             if p.outcome == "return" and isinstance(v, NodeV) and v.cls == "Command":
                 ex = v.args.get("expression")
                 txt = ex.args.get("this") if isinstance(ex, NodeV) else ex
